@@ -118,6 +118,19 @@ def check_render(fs, fsb, model, label):
             extra = list((got - exp).elements())
             return Failure(PROP, "C06.value", "%s: filter %r: supplied values %r appear in the script as %r\n%s" % (
                 label, mf.name, miss, extra, text), {}), text
+        # absolute, not only relative to the benign rendering: nothing that was supplied may be silently left out
+        lost = list((Counter(mf.values) - got).elements())
+        if lost:
+            return Failure(PROP, "C06.value", "%s: filter %r: supplied values %r do not appear in the script at all\n%s" % (
+                label, mf.name, lost, text), {}), text
+        conds, acts, _ = E.fill(mf.struct, mf.values)
+        want_tags = Counter(x for a in acts for x in a[1:] if isinstance(x, str) and x.startswith(":") and x not in mf.values)
+        want_nums = Counter(str(x) for a in acts for x in a[1:] if isinstance(x, int) and not isinstance(x, bool))
+        have_tags = Counter(v for nd in E.unwrap(node).walk() for k, v in nd.args if k == "tag")
+        have_nums = Counter(v for nd in E.unwrap(node).walk() for k, v in nd.args if k == "num")
+        if (want_tags - have_tags) or (want_nums - have_nums):
+            return Failure(PROP, "C06.value", "%s: filter %r: supplied action tags/numbers %r %r are missing from the script\n%s" % (
+                label, mf.name, list((want_tags - have_tags).elements()), list((want_nums - have_nums).elements()), text), {}), text
     return None, text
 
 
